@@ -17,11 +17,11 @@ package store
 //	CRASH store=mem|dir k=<mask>                the directory additionally holds the blobs (selected by mask) that a
 //	                                            conversion writes before it saves index.json, and stray temp files
 //
-//	VERIF_MODE   gen | replay
+//	VERIF_MODE   gen | enum | replay
 //	VERIF_OPS    request lines   (written by gen, read by replay)
 //	VERIF_IMPL   one answer line per request line
 //	VERIF_MON    monitor lines "MON <line-no> <monitor> <detail>"
-//	VERIF_SEED VERIF_N            generator parameters
+//	VERIF_SEED VERIF_N            generator parameters (gen); VERIF_DEPTH (enum: longest fallback index)
 //
 // Statement-level monitors (computed from the layout definition, not from the model):
 // convert-lost-referrer convert-extra-referrer convert-lost-tag convert-lost-manifest convert-lost-blob
@@ -335,7 +335,7 @@ type vingObs struct {
 	diskBlob map[digest.Digest]bool
 }
 
-var vingStackFn = regexp.MustCompile(`^([^\s(][^(]*)\(`)
+var vingStackFn = regexp.MustCompile(`^(\S.*)\([^()]*\)$`)
 
 // the goroutine that runs vingOpen, as "state: f1 < f2 < …"
 func vingDump() (state, frames string) {
@@ -353,6 +353,7 @@ func vingDump() (state, frames string) {
 		for _, l := range lines[1:] {
 			if m := vingStackFn.FindStringSubmatch(l); m != nil {
 				f := m[1]
+				f = strings.TrimPrefix(f, "created by ")
 				f = strings.TrimPrefix(f, "github.com/olareg/olareg/internal/store.")
 				fs = append(fs, f)
 			}
@@ -1192,6 +1193,70 @@ func (g *vingGen) layout(h *vingH) {
 	}
 }
 
+// enum emits the exhaustive family of small layouts: artifacts m1 (subject S1) and m2 (subject S1 or S2), a fallback
+// tag of S1 and optionally one of S2 whose indexes are any list of at most `depth` descriptors out of
+// {m1 accurate, m2 accurate, m1 with a stale size, a missing manifest}, and optionally a converted response of S1
+func (g *vingGen) enum(h *vingH, depth int) {
+	man := func(name, subj string) (string, vingDesc) {
+		probe := fmt.Sprintf("MAN %s subj=%s mt=ocim cfgmt=cfg at= ann= len=0", name, subj)
+		n := vingProbeLen(h, probe)
+		return fmt.Sprintf("MAN %s subj=%s mt=ocim cfgmt=cfg at= ann= len=%d", name, subj, n), vingDesc{dig: name, mt: "ocim", at: "cfg", size: n}
+	}
+	for _, m2subj := range []string{"S1", "S2"} {
+		l1, a1 := man("m1", "S1")
+		l2, a2 := man("m2", m2subj)
+		b1 := a1
+		b1.size++
+		alphabet := []vingDesc{a1, a2, b1, {dig: "mX", mt: "ocim", size: 3}}
+		lists := [][]vingDesc{{}}
+		for lo, k := 0, 0; k < depth; k++ {
+			hi := len(lists)
+			for _, l := range lists[lo:hi] {
+				for _, d := range alphabet {
+					lists = append(lists, append(append([]vingDesc{}, l...), d))
+				}
+			}
+			lo = hi
+		}
+		olds := [][]vingDesc{nil, {a1}, {a2}, {b1}}
+		idxLine := func(l []vingDesc) string {
+			if len(l) == 0 {
+				return "IDX"
+			}
+			p := []string{}
+			for _, d := range l {
+				p = append(p, d.String())
+			}
+			return "IDX " + strings.Join(p, ",")
+		}
+		for _, old := range olds {
+			for _, f1 := range lists {
+				for k2 := -1; k2 < len(lists); k2++ {
+					g.emit("NEW")
+					g.emit(l1)
+					g.emit(l2)
+					g.emit(fmt.Sprintf("TOP dig=m1 mt=ocim tag=t1 subj= size=%d", a1.size))
+					if old != nil {
+						g.emit(idxLine(old))
+						g.emit("TOP dig=" + vingIdxName(old) + " mt=ocii tag= subj=S1 size=0")
+					}
+					g.emit(idxLine(f1))
+					g.emit("TOP dig=" + vingIdxName(f1) + " mt=ocii tag=fbS1 subj= size=0")
+					if k2 >= 0 {
+						g.emit(idxLine(lists[k2]))
+						g.emit("TOP dig=" + vingIdxName(lists[k2]) + " mt=ocii tag=fbS2 subj= size=0")
+					}
+					g.emit("INGEST store=mem")
+					g.emit("INGEST store=dir")
+					g.emit("REOPEN store=dir")
+					g.emit("CRASH store=dir k=1")
+					g.emit("CRASH store=dir k=2")
+				}
+			}
+		}
+	}
+}
+
 // byte length of the document a MAN line defines (the answer to a wrong len= names the right one)
 func vingProbeLen(h *vingH, line string) int {
 	p := &vingH{byTok: h.byTok, tokOf: map[digest.Digest]string{}, tagTok: map[string]string{}, monCount: map[string]int{}}
@@ -1261,8 +1326,14 @@ func TestVerifIngest(t *testing.T) {
 		fmt.Fprintln(ops, line)
 		fmt.Fprintln(impl, h.apply(line))
 	}
-	for c := 0; c < n; c++ {
-		g.layout(h)
+	switch mode {
+	case "gen":
+		for c := 0; c < n; c++ {
+			g.layout(h)
+		}
+	case "enum":
+		depth, _ := strconv.Atoi(os.Getenv("VERIF_DEPTH"))
+		g.enum(h, depth)
 	}
 	for k, v := range h.monCount {
 		t.Logf("monitor %s fired %d times", k, v)
